@@ -67,12 +67,16 @@ def ref_statistic(stat, arr, keep, axis, pct=None):
     return out
 
 
-def close(got, exp, rtol=1e-9, atol=1e-11):
-    """Element-wise agreement, NaN == NaN; shapes must already agree."""
+def close(got, exp, rtol=1e-9, vscale=0.0):
+    """Element-wise agreement, NaN == NaN; shapes must already agree.  The tolerance is relative to the compared
+    quantity: rtol times the largest expected magnitude or - for results that cancel to (nearly) nothing - the largest
+    magnitude among the values that went in (`vscale`).  No absolute floor: statistics of 1e-10-sized data are held
+    to 1e-19."""
     got = np.asarray(got, dtype=float)
     exp = np.asarray(exp, dtype=float)
-    scale = float(np.nanmax(np.abs(exp))) if exp.size and np.any(np.isfinite(exp)) else 0.0
-    return bool(np.allclose(got, exp, rtol=rtol, atol=atol + rtol * scale, equal_nan=True))
+    fin = np.isfinite(exp)
+    scale = float(np.max(np.abs(exp[fin]))) if exp.size and np.any(fin) else 0.0
+    return bool(np.allclose(got, exp, rtol=rtol, atol=rtol * max(scale, float(vscale)), equal_nan=True))
 
 
 # ---------------------------------------------------------------- histogram
